@@ -59,7 +59,7 @@ def run(module, cfg=None, env=None, workers=1, timeout=3600, args=(), heap="3g",
     if env:
         e.update({k: str(v) for k, v in env.items()})
     gcopt = ["-XX:+UseSerialGC"] if gc == "serial" else ["-XX:+UseParallelGC", "-XX:ParallelGCThreads=4"]
-    cmd = ["java", "-Xmx" + heap] + gcopt
+    cmd = ["java", "-Xmx" + heap] + gcopt + os.environ.get("VERIF_JAVA_OPTS", "").split()
     if stack:
         cmd.append("-Xss" + stack)
     cmd += ["-cp", CP, "tlc2.TLC", "-workers", str(workers), "-metadir", meta,
